@@ -315,6 +315,20 @@ func (st *storeRun) connect(specs []STx) {
 	used := map[outpoint]bool{}
 	for _, sp := range specs {
 		from := s.actors[mod(sp.From, len(s.actors))]
+		if sp.Kind == "zeroout" {
+			// a transaction type that consensus requires to have no outputs
+			// (activate producer): nothing for the unspent index to record
+			st.nonce++
+			nonce := common2.NewAttribute(common2.Nonce, []byte(fmt.Sprintf("z%d", st.nonce)))
+			pk, _ := from.acc.PublicKey.EncodePoint(true)
+			tx := transaction.CreateTransaction(common2.TxVersion09, common2.ActivateProducer, 0,
+				&payload.ActivateProducer{NodePublicKey: pk, Signature: bytes.Repeat([]byte{3}, crypto.SignatureLength)},
+				[]*common2.Attribute{&nonce}, []*common2.Input{}, []*common2.Output{}, 0, []*pg.Program{})
+			m.txs[tx.Hash()] = height
+			txs = append(txs, tx)
+			c.Probe("store-tx:zeroout")
+			continue
+		}
 		own := st.ownUTXOs(from)
 		var free []outpoint
 		for _, op := range own {
@@ -548,6 +562,17 @@ func (st *storeRun) checkQueries() {
 		}
 		if tx, h, err := ffl.GetTransaction(id); err == nil && tx != nil {
 			c.Violate("C13", "tx-lookup", "C13/location-of-disconnected-transaction", "GetTransaction(%x) still finds a disconnected transaction at height %d", id[:6], h)
+			// the transaction index itself (uncached) decides which of the two it is
+			indexed := false
+			st.ffl().View(func(tx database.Tx) error {
+				if b := tx.Metadata().Bucket([]byte("txbyhashidx")); b != nil {
+					indexed = b.Get(id[:]) != nil
+				}
+				return nil
+			})
+			if !indexed {
+				c.Violate("C15", "tx-cache", "C15/transaction-cache-returns-detached-transaction", "GetTransaction(%x) answers from the transaction cache (height %d) what the transaction index no longer holds", id[:6], h)
+			}
 			return
 		}
 	}
